@@ -1,7 +1,89 @@
 /-
-Helper lemmas (NpyDamage).
+Helper lemmas (NpyDamage): a written npy file cut short or extended is rejected by `readNpy`; format detection
+on a damaged npy file never selects the text reader.
 -/
 import SfsModel.Lemmas.NpyRoundtrip
 namespace Sfs
+
+/-- intact written header, but the body is not exactly the declared number of 8-byte values. -/
+theorem readNpy_written_bad_body (shape : List Nat) (hne : shape ≠ []) (hb : ∀ v ∈ shape, v < 2 ^ 64) (L pad : Nat)
+    (hL : L = (npyDict shape).length + pad + 1) (hlt : L < 65536) (n : Nat) (hsz : checkedSize shape = some n)
+    (body : List Nat) (hbody : body.length ≠ 8 * n) :
+    ∃ e, readNpy (npyMagic ++ [1, 0] ++ leBytes 2 L ++ asciiBytes (npyDict shape) ++ List.replicate pad 32 ++ [10]
+      ++ body) = .error e := by
+  rw [readNpy_written shape hne hb L pad hL hlt]
+  have h := readValues_f8_len .little (body.length + 1) body (Nat.lt_succ_self _)
+  by_cases h8 : body.length % 8 = 0
+  · obtain ⟨vals, hv, hvl⟩ := h.1 h8
+    have : ¬ n = vals.length := by clear hv h; omega
+    simp only [hv, hsz, Option.some.injEq, this, if_false]
+    exact ⟨_, rfl⟩
+  · simp only [h.2 h8]
+    exact ⟨_, rfl⟩
+
+/-- every strict prefix of header ++ values is rejected. -/
+theorem readNpy_take_written (shape bits : List Nat) (hne : shape ≠ []) (hb : ∀ v ∈ shape, v < 2 ^ 64) (L pad : Nat)
+    (hL : L = (npyDict shape).length + pad + 1) (hlt : L < 65536) (hsz : checkedSize shape = some bits.length)
+    (n : Nat)
+    (hn : n < (npyMagic ++ [1, 0] ++ leBytes 2 L ++ asciiBytes (npyDict shape) ++ List.replicate pad 32 ++ [10]
+      ++ (bits.map (leBytes 8)).flatten).length) :
+    ∃ e, readNpy ((npyMagic ++ [1, 0] ++ leBytes 2 L ++ asciiBytes (npyDict shape) ++ List.replicate pad 32 ++ [10]
+      ++ (bits.map (leBytes 8)).flatten).take n) = .error e := by
+  have hv := flatten_leBytes8_length bits
+  generalize (bits.map (leBytes 8)).flatten = vals at hv hn ⊢
+  by_cases h10 : n < 10
+  · exact readNpy_lt10 _ (by simp only [List.length_take]; omega)
+  by_cases hh : n < 10 + L
+  · -- the cut falls inside dict / padding
+    have hpl : (npyMagic ++ [1, 0] ++ leBytes 2 L).length = 10 := by simp [npyMagic]
+    have e1 : npyMagic ++ [1, 0] ++ leBytes 2 L ++ asciiBytes (npyDict shape) ++ List.replicate pad 32 ++ [10] ++ vals
+        = (npyMagic ++ [1, 0] ++ leBytes 2 L) ++ (asciiBytes (npyDict shape) ++ List.replicate pad 32 ++ [10] ++ vals) := by
+      simp only [List.append_assoc]
+    rw [e1, List.take_append, List.take_of_length_le (l := npyMagic ++ [1, 0] ++ leBytes 2 L) (i := n) (by omega)]
+    exact ⟨_, readNpy_short_header L _ hlt (by simp only [List.length_take, hpl]; omega)⟩
+  · -- the header is intact, the cut falls into the values
+    have hl : (npyMagic ++ [1, 0] ++ leBytes 2 L ++ asciiBytes (npyDict shape) ++ List.replicate pad 32 ++ [10]).length
+        = 10 + L := by
+      simp only [List.length_append, npyMagic, List.length_cons, List.length_nil, leBytes_length, asciiBytes_length,
+        List.length_replicate]
+      omega
+    rw [List.length_append, hl] at hn
+    rw [List.take_append, List.take_of_length_le
+      (l := npyMagic ++ [1, 0] ++ leBytes 2 L ++ asciiBytes (npyDict shape) ++ List.replicate pad 32 ++ [10]) (i := n)
+      (by omega)]
+    exact readNpy_written_bad_body shape hne hb L pad hL hlt bits.length hsz _
+      (by simp only [List.length_take, hl]; omega)
+
+/-- a file that does not start with `#` is either handed to the npy reader or rejected by detection. -/
+theorem readSpectrum_not_text (b : List Nat) (h : b.head? ≠ some 35) :
+    readSpectrum b = readNpy b ∨ readSpectrum b = .error .invalid := by
+  have ht : textStart.isPrefixOf b = false := by
+    cases b with
+    | nil => rfl
+    | cons x t =>
+      have hx : x ≠ 35 := by simpa using h
+      simp [textStart, asciiBytes, List.isPrefixOf, Ne.symm hx]
+  unfold readSpectrum detectFormat
+  simp only [ht]
+  cases npyMagic.isPrefixOf b <;> simp
+
+theorem readSpectrum_error_of_readNpy (b : List Nat) (h : b.head? ≠ some 35) (he : ∃ e, readNpy b = .error e) :
+    ∃ e, readSpectrum b = .error e := by
+  rcases readSpectrum_not_text b h with h' | h'
+  · rw [h']; exact he
+  · exact ⟨_, h'⟩
+
+theorem writeNpy_magic (shape bits bytes : List Nat) (hw : writeNpy shape bits = .ok bytes) :
+    ∃ t, bytes = npyMagic ++ t := by
+  obtain ⟨hd, hh, rfl⟩ := writeNpy_eq_ok shape bits bytes hw
+  obtain ⟨t, rfl⟩ := npyHeader_magic shape hd hh
+  exact ⟨t ++ _, by rw [List.append_assoc]⟩
+
+theorem npyMagic_take_head (t : List Nat) (n : Nat) : ((npyMagic ++ t).take n).head? ≠ some 35 := by
+  rw [List.head?_take]
+  split <;> simp [npyMagic]
+
+theorem npyMagic_append_head (t extra : List Nat) : (npyMagic ++ t ++ extra).head? ≠ some 35 := by
+  simp [npyMagic]
 
 end Sfs
